@@ -1,11 +1,9 @@
 #!/bin/sh
-# usage: all_seeds.sh  -- apply every seeded change in turn to /repo, run the check of its property, undo; one line per seed
+# usage: all_seeds.sh  -- every seeded change in turn: applied to a scratch copy of /repo, the check of its property must report a
+# violation; one line per seed
 cd /verif
-export PYVC_EVIDENCE_DIR=${TMPDIR:-/tmp}/seed_evidence   # keep the committed evidence of the clean tree
 for d in seeded/*/; do
   s=$(basename $d); p=${s%-*}
-  git -C /repo apply /verif/$d/patch.diff || { echo "$s PATCH-FAILS"; continue; }
-  r=$(./check $p 2>&1 | grep -a -- "->" | tail -1)
-  git -C /repo checkout -- .
+  r=$(sh tests_engine/seedcheck.sh x /verif/$d/patch.diff $p | grep -a -- "->" | tail -1)
   echo "$s $r"
 done
